@@ -13,9 +13,9 @@ import MdkVerif.Props.C01Fork
       the statements of Proofs/Fork.lean (`rel_run`, `rel2_run`, `CForm`, …) and of §A.
   §B  the child state as a function of the parent group state (`childOfG`), chains of children
       (`chainG`), the core of a group state (path, members, admins, name).
-  §C  one fork level for a client in any role (`AtFork`), with everything the simulation knows exposed.
-  §D  the induction over the levels of a chain.
-  §E  many clients.
+  §C  stale events (created on a branch the client is not on) keep the fork simulation: mixed runs.
+  §D  one fork level for a client in any role (`AtFork`), with everything the simulation knows exposed.
+  §E  the induction over the levels of a chain (stale events interleaved; the pure case as a corollary).
 -/
 namespace MdkVerif.Chain
 open MdkVerif MdkVerif.Client MdkVerif.Fork MdkVerif.Props.C01Fork
@@ -244,14 +244,15 @@ theorem outerOpens_stale (g : GState) (e : Ev) (hs : SecretsOK g) (hst : ¬ e.pa
     Bool.not_eq_true]
   exact ⟨key _, fun x _ _ => key _⟩
 
-/-- … so delivering it changes nothing, or (first time, or re-opened as Retryable) only stores the current
-    epoch's exporter secret and writes the event's OWN record: Failed -/
+/-- … so delivering it changes nothing (its record already blocks it), or (first time, or re-opened as
+    Retryable) only stores the current epoch's exporter secret and writes the event's OWN record: Failed -/
 theorem stale_deliverN (fuel nx : Nat) (c : Cl) (e : Ev) (hg : c.hasGroup = true) (hs : SecretsOK (ensureSecret c.g))
     (hst : ¬ e.path <+: c.g.path) :
-    (deliverN fuel nx c e).1 = c ∨ (deliverN fuel nx c e).1 = recordFailure (withSecret c) e.n true none := by
+    ((deliverN fuel nx c e).1 = c ∧ ∃ r, getRec c e.n = some r ∧ (r.state = 3 ∨ r.state = 4)) ∨
+    (deliverN fuel nx c e) = (recordFailure (withSecret c) e.n true none, .err eMessage) := by
   have ho : outerOpens (withSecret c).g e = false :=
     outerOpens_stale _ e hs (by rw [withSecret_path]; exact hst)
-  have hstep : ∀ retry, (step1 retry nx c e).1 = recordFailure (withSecret c) e.n true none := by
+  have hstep : ∀ retry, step1 retry nx c e = (recordFailure (withSecret c) e.n true none, .err eMessage) := by
     intro retry
     unfold step1
     simp [hg, ho]
@@ -259,8 +260,10 @@ theorem stale_deliverN (fuel nx : Nat) (c : Cl) (e : Ev) (hg : c.hasGroup = true
   rw [hd]
   unfold deliverOnce
   split
-  · split
-    · exact Or.inl rfl
+  · rename_i r hr
+    split
+    · rename_i h34
+      exact Or.inl ⟨rfl, r, hr, by simpa using h34⟩
     · exact Or.inr (hstep retry)
   · exact Or.inr (hstep retry)
 
@@ -423,355 +426,12 @@ theorem foldl_coreStep_path (ws : List Ev) (hk : ∀ w ∈ ws, ∃ b sw, w.kind 
     rw [List.foldl_cons, ih (fun x hx => hk x (List.mem_cons_of_mem _ hx))]
     simp [coreStep, hw]
 
-/-! ## §C  one fork level, any role -/
-
-/-- a client at the parent state of a fork whose set of competing commits is `T`: a bystander (all of
-    `T` are foreign siblings) or one of the committers (its own staged commit `o` is in `T`, applied on
-    relay echo) -/
-inductive AtFork (c : Cl) (T : List Ev) : Prop where
-  | bystander (hg : c.hasGroup = true) (hr : 1 ≤ c.retention) (hsec : SecretsOK c.g) (hm : NoForkSnapshot c)
-      (hS : Siblings c T)
-  | committer (o : Ev) (S : List Ev) (hg : c.hasGroup = true) (hr : 1 ≤ c.retention) (hsec : SecretsOK c.g)
-      (hm : NoForkSnapshot c) (ho : OwnCommit c o) (hS : Siblings c S)
-      (hd : ∀ e ∈ S, e.n ≠ o.n ∧ (e.ts, e.idnum) ≠ (o.ts, o.idnum)) (hT : ∀ e, e ∈ T ↔ e ∈ o :: S)
-
-/-- `w` is the MIP-03 minimum of `S` -/
-def IsMin (w : Ev) (S : List Ev) : Prop := w ∈ S ∧ ∀ e ∈ S, e = w ∨ klt (key w) (key e) = true
-
-theorem isMin_unique {w w' : Ev} {S : List Ev} (h : IsMin w S) (h' : IsMin w' S) : w = w' := by
-  rcases h.2 w' h'.1 with x | x
-  · exact x.symm
-  · rcases h'.2 w h.1 with y | y
-    · exact y
-    · rw [klt_asymm x] at y; cases y
-
-/-- `l` is a delivery list over `S` (any order, any repetition) that contains every element of `S` -/
-def Covers (S l : List Ev) : Prop := (∀ e ∈ l, e ∈ S) ∧ (∀ e ∈ S, e ∈ l)
-
-/-- everything the simulation knows after a delivery list `l` over the fork `T` ended on `w` -/
-structure LevelDone (c : Cl) (T l : List Ev) (w : Ev) (c' : Cl) : Prop where
-  base : Base c
-  paths : ∀ e ∈ T, e.path = c.g.path
-  com : Com c w
-  form : CForm c w c'
-  wrec : getRec c' w.n = some (rec2 c)
-  blk : ∀ e ∈ l, e ≠ w → e.sender ≠ c.id → ∃ r, getRec c' e.n = some r ∧ BlockedRec c r
-  cons : ∀ x ∈ c'.g.consumed, x ∈ c.g.consumed ∨ ∃ e ∈ T, e.cipher = x
-
-theorem atFork_paths {c : Cl} {T : List Ev} (h : AtFork c T) : ∀ e ∈ T, e.path = c.g.path := by
-  cases h with
-  | bystander _ _ _ _ hS => exact hS.path
-  | committer o S _ _ _ _ ho hS _ hT =>
-    intro e he
-    rcases List.mem_cons.mp ((hT e).mp he) with rfl | x
-    · exact ho.path
-    · exact hS.path e x
-
-/-- **one level**: the single-fork theorems for either role, with the full shape of the final state -/
-theorem fork_level (c : Cl) (T l : List Ev) (nx : Nat) (hat : AtFork c T) (hl : ∀ e ∈ l, e ∈ T) (hne : l ≠ []) :
-    ∃ w ∈ l, (∀ e ∈ l, e = w ∨ klt (key w) (key e) = true) ∧ LevelDone c T l w (run nx c l) := by
-  have hpaths := atFork_paths hat
-  cases hat with
-  | bystander hg hr hsec hm hS =>
-    have hb := base_of c hg hr hsec hm
-    have hSs := sibs_of c T hS
-    have hrel := rel_run c hb T hSs nx l c ⟨none, []⟩ (rel_init c hb T hSs) (by simp [FInv]) hl
-    obtain ⟨ka, hka, hap, hmin, hblk⟩ := single_fork (l.map key) (by simpa using hne)
-    obtain ⟨w, hwS, hwk, hcf, hrw⟩ := hrel.chi ka hap
-    obtain ⟨e0, he0, hk0⟩ := List.mem_map.mp hka
-    have hw : w ∈ l := by
-      have : e0 = w := hSs.inj e0 (hl e0 he0) w hwS (Or.inr (hk0.trans hwk.symm))
-      rw [← this]; exact he0
-    refine ⟨w, hw, ?_, hb, hpaths, (hSs.sib w hwS).com, hcf, hrw, ?_, ?_⟩
-    · intro e he
-      rcases hmin (key e) (List.mem_map.mpr ⟨e, he, rfl⟩) with x | x
-      · exact Or.inl (hSs.inj e (hl e he) w hwS (Or.inr (x.symm.trans hwk.symm)))
-      · exact Or.inr (by rw [hwk]; exact x)
-    · intro e he hne' _
-      have hk : key e ≠ ka := fun x => hne' (hSs.inj e (hl e he) w hwS (Or.inr (x.trans hwk.symm)))
-      exact hrel.blk e (hl e he) (hblk (key e) (List.mem_map.mpr ⟨e, he, rfl⟩) hk)
-    · intro x hx
-      rcases hrel.cons x hx with y | ⟨e', he', hc, _⟩
-      · exact Or.inl y
-      · exact Or.inr ⟨e', he', hc⟩
-  | committer o S hg hr hsec hm ho hS hd hT =>
-    have hb := base_of c hg hr hsec hm
-    have hSs := sibs2_of c o S ho hS hd
-    have hl' : ∀ e ∈ l, e ∈ o :: S := fun e he => (hT e).mp (hl e he)
-    have hrel := rel2_run c hb o S hSs nx l c ⟨none, []⟩ (rel2_init c hb o S hSs) (by simp [FInv]) hl'
-    obtain ⟨ka, hka, hap, hmin, hblk⟩ := single_fork2 (key o) (l.map key) (by simpa using hne)
-    obtain ⟨w, hwT, hwk, hcf, hrw⟩ := hrel.chi ka hap
-    obtain ⟨e0, he0, hk0⟩ := List.mem_map.mp hka
-    have hw : w ∈ l := by
-      have : e0 = w := hSs.inj e0 (hl' e0 he0) w hwT (Or.inr (hk0.trans hwk.symm))
-      rw [← this]; exact he0
-    refine ⟨w, hw, ?_, hb, hpaths, hSs.com w hwT, hcf, hrw, ?_, ?_⟩
-    · intro e he
-      rcases hmin (key e) (List.mem_map.mpr ⟨e, he, rfl⟩) with x | x
-      · exact Or.inl (hSs.inj e (hl' e he) w hwT (Or.inr (x.symm.trans hwk.symm)))
-      · exact Or.inr (by rw [hwk]; exact x)
-    · intro e he hne' hfor
-      have hk : key e ≠ ka := fun x => hne' (hSs.inj e (hl' e he) w hwT (Or.inr (x.trans hwk.symm)))
-      have hno : e ≠ o := fun x => hfor (x ▸ ho.own)
-      have hko : key e ≠ key o := fun x => hno (hSs.inj e (hl' e he) o List.mem_cons_self (Or.inr x))
-      exact hrel.blk e (hl' e he) (hblk (key e) (List.mem_map.mpr ⟨e, he, rfl⟩) hk hko)
-    · intro x hx
-      rcases hrel.cons x hx with y | ⟨e', he', hc, _⟩
-      · exact Or.inl y
-      · exact Or.inr ⟨e', (hT e').mpr (List.mem_cons_of_mem _ he'), hc⟩
-
-/-- no snapshot of the current or a later epoch (`HInv.below`; stronger than `NoForkSnapshot`, and what
-    makes `NoForkSnapshot` hold again one epoch later) -/
-def Below (c : Cl) : Prop := ∀ s ∈ c.mgr, s.epoch < epochOf c.g.path
-
-theorem Below.noFork {c : Cl} (h : Below c) : NoForkSnapshot c := fun s hs => Nat.ne_of_lt (h s hs)
-
 theorem secretsOK_wc (g : GState) (X : List Nat) (h : SecretsOK g) : SecretsOK (wc g X) := h
 
 theorem secretsOK_childOfG (mp : Nat) (g : GState) (a : Ev) (h : SecretsOK g) : SecretsOK (childOfG mp g a) :=
   secOK_syncRec _ (secOK_ensure _ (secOK_merge _ _ _ (secOK_ensure _ h)))
 
-namespace LevelDone
-variable {c c' : Cl} {T l : List Ev} {w : Ev}
-
-theorem path (h : LevelDone c T l w c') : c'.g.path = c.g.path ++ [w.cipher] := by
-  rw [h.form.g]; exact (childG_facts c h.base w h.com).1
-
-theorem g (h : LevelDone c T l w c') : wc c'.g [] = wc (childOfG c.maxPast c.g w) [] := by
-  rw [h.form.g]; rfl
-
-theorem epoch (h : LevelDone c T l w c') : epochOf c'.g.path = epochOf c.g.path + 1 := by
-  rw [h.path, epochOf_snoc]
-
-theorem admins (h : LevelDone c T l w c') : c'.g.admins = c.g.admins := by
-  have h1 : (core (wc c'.g [])).2.2.1 = (core (wc (childOfG c.maxPast c.g w) [])).2.2.1 := by rw [h.g]
-  rw [core_wc, core_wc, core_childOfG, coreStep_admins] at h1
-  exact h1
-
-theorem secrets (h : LevelDone c T l w c') (hs : SecretsOK c.g) : SecretsOK c'.g := by
-  rw [h.form.g]; exact secretsOK_wc _ _ (secretsOK_childOfG _ _ _ hs)
-
-theorem below (h : LevelDone c T l w c') (hb : Below c) : Below c' := by
-  obtain ⟨k, hk⟩ := h.form.mgr
-  intro s hs
-  rw [h.epoch]
-  rw [hk] at hs
-  rcases List.mem_append.mp hs with x | x
-  · exact Nat.lt_succ_of_lt (hb s (List.mem_of_mem_drop x))
-  · simp at x; subst x; exact Nat.lt_succ_self _
-
-/-- the records of event numbers outside the fork: unseen stays unseen, stable records are kept -/
-theorem frame (h : LevelDone c T l w c') (nx : Nat) (hc : c' = run nx c l) (hl : ∀ e ∈ l, e ∈ T) (n : Nat)
-    (hn : ∀ e ∈ T, n ≠ e.n) : Frame (epochOf c.g.path) n c c' := by
-  rw [hc]
-  exact frame_run nx _ n l c (fun e he => ⟨by rw [h.paths e (hl e he)], hn e (hl e he)⟩)
-
-end LevelDone
-
-theorem rec2_stable (c : Cl) : StableRec (epochOf c.g.path + 1) (rec2 c) := by
-  intro ep hep
-  have : ¬ epochOf c.g.path + 1 > ep := by omega
-  simp [rbRec, rbRec1, rbRec2, rec2, this]
-
-theorem blocked_stable (c : Cl) (r : Rec) (h : BlockedRec c r) : StableRec (epochOf c.g.path + 1) r := by
-  intro ep hep
-  obtain ⟨_, h2, h3⟩ := h
-  have : ¬ epochOf c.g.path + 1 > ep := by omega
-  have e1 : rbRec1 ep r = r := by simp [rbRec1, h2, h3, this]
-  simp [rbRec, e1, rbRec2, h3]
-
-/-! ## §D  chains of forks -/
-
-/-- one level of a chain: the MIP-03 winner and the set of competing commits -/
-abbrev Level := Ev × List Ev
-
-/-- all events of a list of levels -/
-def evs (Ls : List Level) : List Ev := Ls.flatMap (·.2)
-
-@[simp] theorem evs_nil : evs [] = [] := rfl
-@[simp] theorem evs_cons (L : Level) (Ls : List Level) : evs (L :: Ls) = L.2 ++ evs Ls := rfl
-
-/-- the conditions on the commits of one level that do not mention the client's state: created in the
-    state with path `p`, by others, each by an admin or a pure self-update, non-zero timestamps,
-    pairwise distinct event numbers / MIP-03 keys / ciphertexts -/
-structure LevelEv (id : Nat) (admins : List Nat) (p : Path) (S : List Ev) : Prop where
-  path : ∀ e ∈ S, e.path = p
-  kind : ∀ e ∈ S, ∃ b sw, e.kind = .commit b sw ∧ (admins.contains e.sender || isPureSelfUpdate b sw) = true
-  foreign : ∀ e ∈ S, e.sender ≠ id
-  ts : ∀ e ∈ S, e.ts ≠ 0
-  distinct : ∀ e1 ∈ S, ∀ e2 ∈ S, e1 ≠ e2 → e1.n ≠ e2.n ∧ (e1.ts, e1.idnum) ≠ (e2.ts, e2.idnum) ∧ e1.cipher ≠ e2.cipher
-
-/-- a chain of forks starting in the state with path `p`: every level's commits were created in the
-    state reached by the MIP-03 winners of the levels before it; event numbers and ciphertexts are
-    distinct across levels (within a level: `LevelEv.distinct`) -/
-def ChainEv (id : Nat) (admins : List Nat) : Path → List Level → Prop
-  | _, [] => True
-  | p, L :: rest => LevelEv id admins p L.2 ∧ IsMin L.1 L.2 ∧
-      (∀ e1 ∈ L.2, ∀ e2 ∈ evs rest, e1.n ≠ e2.n ∧ e1.cipher ≠ e2.cipher) ∧
-      ChainEv id admins (p ++ [L.1.cipher]) rest
-
-/-- a level-by-level schedule: one delivery list per level, each over its level and containing all of it -/
-def LevelWise : List Level → List (List Ev) → Prop
-  | [], [] => True
-  | L :: Ls, l :: ls => Covers L.2 l ∧ LevelWise Ls ls
-  | _, _ => False
-
-theorem siblings_of_levelEv (c : Cl) (S : List Ev) (h : LevelEv c.id c.g.admins c.g.path S)
-    (hu : ∀ e ∈ S, getRec c e.n = none ∧ e.cipher ∉ c.g.consumed) : Siblings c S where
-  path := h.path
-  kind := h.kind
-  foreign := h.foreign
-  ts := h.ts
-  distinct := h.distinct
-  unseen := fun e he => (hu e he).1
-  unconsumed := fun e he => (hu e he).2
-
-/-- the per-client hypotheses of a chain -/
-structure Ready (c : Cl) : Prop where
-  hasGroup : c.hasGroup = true
-  ret : 1 ≤ c.retention
-  sec : SecretsOK c.g
-  below : Below c
-
-/-- what a client has done after a level-by-level schedule over the chain `Ls` -/
-structure ChainDone (c : Cl) (Ls : List Level) (c' : Cl) : Prop where
-  path : c'.g.path = c.g.path ++ Ls.map (·.1.cipher)
-  g : wc c'.g [] = wc (chainG c.maxPast c.g (Ls.map (·.1))) []
-  win : ∀ L ∈ Ls, (getRec c' L.1.n).map (·.state) = some 2
-  lose : ∀ L ∈ Ls, ∀ e ∈ L.2, e ≠ L.1 → e.sender ≠ c.id → ∃ r, getRec c' e.n = some r ∧ (r.state = 3 ∨ r.state = 4)
-  id : c'.id = c.id
-  persistent : c'.persistent = c.persistent
-  retention : c'.retention = c.retention
-  maxPast : c'.maxPast = c.maxPast
-  ready : Ready c'
-  keep : ∀ n r, getRec c n = some r → StableRec (epochOf c.g.path) r → (∀ e ∈ evs Ls, n ≠ e.n) → getRec c' n = some r
-  unseen : ∀ n, getRec c n = none → (∀ e ∈ evs Ls, n ≠ e.n) → getRec c' n = none
-  cons : ∀ x ∈ c'.g.consumed, x ∈ c.g.consumed ∨ ∃ e ∈ evs Ls, e.cipher = x
-
-theorem chainDone_nil (c : Cl) (h : Ready c) : ChainDone c [] c where
-  path := by simp
-  g := rfl
-  win := fun L hL => by cases hL
-  lose := fun L hL => by cases hL
-  id := rfl
-  persistent := rfl
-  retention := rfl
-  maxPast := rfl
-  ready := h
-  keep := fun _ _ h _ _ => h
-  unseen := fun _ h _ => h
-  cons := fun x hx => Or.inl hx
-
-/-- one level (any role) followed by a chain the client is a bystander of -/
-theorem chain_step (nx : Nat) (c : Cl) (w : Ev) (T l : List Ev) (rest : List Level) (lr : List Ev) (c2 : Cl)
-    (hat : AtFork c T) (hbelow : Below c) (hmin : IsMin w T) (hcov : Covers T l)
-    (hcross : ∀ e1 ∈ T, ∀ e2 ∈ evs rest, e1.n ≠ e2.n ∧ e1.cipher ≠ e2.cipher)
-    (hchain : ChainEv c.id c.g.admins (c.g.path ++ [w.cipher]) rest)
-    (hu : ∀ e ∈ evs rest, getRec c e.n = none ∧ e.cipher ∉ c.g.consumed)
-    (hc2 : c2 = run nx (run nx c l) lr)
-    (ih : ∀ c1 : Cl, Ready c1 → ChainEv c1.id c1.g.admins c1.g.path rest →
-      (∀ e ∈ evs rest, getRec c1 e.n = none ∧ e.cipher ∉ c1.g.consumed) → ChainDone c1 rest (run nx c1 lr)) :
-    ChainDone c ((w, T) :: rest) c2 := by
-  have hne : l ≠ [] := by
-    intro x; have := hcov.2 w hmin.1; rw [x] at this; cases this
-  obtain ⟨w', hw'l, hmin', hd⟩ := fork_level c T l nx hat hcov.1 hne
-  have hw : w = w' := isMin_unique hmin ⟨hcov.1 w' hw'l, fun e he => hmin' e (hcov.2 e he)⟩
-  subst hw
-  have hsec : SecretsOK c.g := by
-    cases hat with
-    | bystander _ _ hsec _ _ => exact hsec
-    | committer _ _ _ _ hsec _ _ _ _ _ => exact hsec
-  have hfr : ∀ n, (∀ e ∈ T, n ≠ e.n) → Frame (epochOf c.g.path) n c (run nx c l) :=
-    fun n hn => hd.frame nx rfl hcov.1 n hn
-  have hready1 : Ready (run nx c l) :=
-    ⟨hd.form.hg, by rw [hd.form.ret]; exact hd.base.ret, hd.secrets hsec, hd.below hbelow⟩
-  have hu1 : ∀ e ∈ evs rest, getRec (run nx c l) e.n = none ∧ e.cipher ∉ (run nx c l).g.consumed := by
-    intro e he
-    constructor
-    · exact (hfr e.n (fun x hx => ((hcross x hx e he).1).symm)).recs (· = none) (fun o ho => by rw [ho]; rfl) (hu e he).1
-    · intro hx
-      rcases hd.cons _ hx with y | ⟨e', he', y⟩
-      · exact (hu e he).2 y
-      · exact (hcross e' he' e he).2 y
-  have hch1 : ChainEv (run nx c l).id (run nx c l).g.admins (run nx c l).g.path rest := by
-    rw [hd.form.id, hd.admins, hd.path]; exact hchain
-  have hI := ih (run nx c l) hready1 hch1 hu1
-  rw [← hc2] at hI
-  have hep1 : epochOf (run nx c l).g.path = epochOf c.g.path + 1 := hd.epoch
-  refine ⟨?_, ?_, ?_, ?_, hI.id.trans hd.form.id, ?_, hI.retention.trans hd.form.ret, hI.maxPast.trans hd.form.mp,
-    hI.ready, ?_, ?_, ?_⟩
-  · rw [hI.path, hd.path]; simp
-  · rw [hI.g, hd.form.mp]
-    simp only [List.map_cons, chainG_cons]
-    rw [← chainG_wc, ← chainG_wc, hd.g]
-  · intro L hL
-    rcases List.mem_cons.mp hL with rfl | hL'
-    · have := hI.keep w.n (rec2 c) hd.wrec (by rw [hep1]; exact rec2_stable c)
-        (fun e he => (hcross w hmin.1 e he).1)
-      show (getRec c2 w.n).map (·.state) = some 2
-      rw [this]; rfl
-    · exact hI.win L hL'
-  · intro L hL e he hne' hfor
-    rcases List.mem_cons.mp hL with rfl | hL'
-    · obtain ⟨r, hr, hbr⟩ := hd.blk e (hcov.2 e he) hne' hfor
-      have := hI.keep e.n r hr (by rw [hep1]; exact blocked_stable c r hbr)
-        (fun e' he' => (hcross e he e' he').1)
-      exact ⟨r, this, hbr.1⟩
-    · exact hI.lose L hL' e he hne' (by rw [hd.form.id]; exact hfor)
-  · exact hI.persistent.trans (run_persistent nx l c)
-  · intro n r hr hst hn
-    have hnT : ∀ e ∈ T, n ≠ e.n := fun e he => hn e (by simp [he])
-    have h1 : getRec (run nx c l) n = some r :=
-      (hfr n hnT).recs (· = some r) (fun o ho => by rw [ho]; simp [hst _ (Nat.le_refl _)]) hr
-    exact hI.keep n r h1 (hst.mono (by omega)) (fun e he => hn e (by simp [he]))
-  · intro n hr hn
-    have hnT : ∀ e ∈ T, n ≠ e.n := fun e he => hn e (by simp [he])
-    have h1 : getRec (run nx c l) n = none :=
-      (hfr n hnT).recs (· = none) (fun o ho => by rw [ho]; rfl) hr
-    exact hI.unseen n h1 (fun e he => hn e (by simp [he]))
-  · intro x hx
-    rcases hI.cons x hx with y | ⟨e, he, y⟩
-    · rcases hd.cons x y with z | ⟨e, he, z⟩
-      · exact Or.inl z
-      · exact Or.inr ⟨e, by simp [he], z⟩
-    · exact Or.inr ⟨e, by simp [he], y⟩
-
-/-- **chain of forks, bystander**: induction over the levels -/
-theorem chain_rest (nx : Nat) (Ls : List Level) : ∀ (c : Cl) (ls : List (List Ev)), Ready c →
-    ChainEv c.id c.g.admins c.g.path Ls → (∀ e ∈ evs Ls, getRec c e.n = none ∧ e.cipher ∉ c.g.consumed) →
-    LevelWise Ls ls → ChainDone c Ls (run nx c ls.flatten) := by
-  induction Ls with
-  | nil =>
-    intro c ls hr _ _ hw
-    cases ls with
-    | nil => exact chainDone_nil c hr
-    | cons l ls => cases hw
-  | cons L rest ih =>
-    intro c ls hr hch hu hw
-    cases ls with
-    | nil => cases hw
-    | cons l ls =>
-      obtain ⟨w, T⟩ := L
-      obtain ⟨hlev, hmin, hcross, hch'⟩ := hch
-      obtain ⟨hcov, hw'⟩ := hw
-      have hS : Siblings c T := siblings_of_levelEv c T hlev (fun e he => hu e (by simp [he]))
-      refine chain_step nx c w T l rest ls.flatten _ (.bystander hr.hasGroup hr.ret hr.sec hr.below.noFork hS) hr.below
-        hmin hcov hcross hch' (fun e he => hu e (by simp [he])) (by simp [run_append]) ?_
-      intro c1 hr1 hch1 hu1
-      exact ih c1 ls hr1 hch1 hu1 hw'
-
-/-- **chain of forks, first level in any role** (bystander or committer), later levels as a bystander -/
-theorem chain_run (nx : Nat) (c : Cl) (w : Ev) (T l : List Ev) (rest : List Level) (ls : List (List Ev))
-    (hat : AtFork c T) (hbelow : Below c) (hmin : IsMin w T) (hcov : Covers T l)
-    (hcross : ∀ e1 ∈ T, ∀ e2 ∈ evs rest, e1.n ≠ e2.n ∧ e1.cipher ≠ e2.cipher)
-    (hchain : ChainEv c.id c.g.admins (c.g.path ++ [w.cipher]) rest)
-    (hu : ∀ e ∈ evs rest, getRec c e.n = none ∧ e.cipher ∉ c.g.consumed)
-    (hw : LevelWise rest ls) :
-    ChainDone c ((w, T) :: rest) (run nx c (l ++ ls.flatten)) :=
-  chain_step nx c w T l rest ls.flatten _ hat hbelow hmin hcov hcross hchain hu (run_append nx c l _)
-    (fun c1 hr1 hch1 hu1 => chain_rest nx rest c1 ls hr1 hch1 hu1 hw)
-
-/-! ## §F  stale events may be interleaved
+/-! ## §C  stale events may be interleaved
 
   An event created on a branch the client is not on (its creation path is neither a prefix of the fork's
   parent path nor a child of the parent by one of the fork's commits) is refused by the outer layer
@@ -802,7 +462,7 @@ theorem quiet_refl (n : Nat) (c : Cl) : Quiet n c c := ⟨rfl, rfl, rfl, rfl, rf
 theorem quiet_stale (fuel nx : Nat) (c : Cl) (e : Ev) (hg : c.hasGroup = true) (hs : SecretsOK (ensureSecret c.g))
     (hst : ¬ e.path <+: c.g.path) : Quiet e.n c (deliverN fuel nx c e).1 := by
   rcases stale_deliverN fuel nx c e hg hs hst with h | h
-  · rw [h]; exact quiet_refl _ c
+  · rw [h.1]; exact quiet_refl _ c
   · rw [h]
     refine ⟨rfl, rfl, rfl, rfl, rfl, Or.inr rfl, rfl, rfl, ?_⟩
     intro m hm
@@ -863,7 +523,8 @@ theorem not_prefix_child {p q : Path} {x : Nat} (h1 : ¬ q <+: p) (h2 : q ≠ p 
 
 /-- a stale delivery keeps the simulation relation (bystander) -/
 theorem rel_stale (c0 : Cl) (hb : Base c0) (hs0 : SecretsOK c0.g) (S : List Ev) (hS : Sibs c0 S) (c : Cl) (st : FState)
-    (nx : Nat) (h : Rel c0 S c st) (e : Ev) (hst : StaleAt c0 S e) : Rel c0 S (deliver c e nx).1 st := by
+    (nx : Nat) (h : Rel c0 S c st) (e : Ev) (hst : StaleAt c0 S e) :
+    Rel c0 S (deliver c e nx).1 st ∧ Quiet e.n c (deliver c e nx).1 := by
   have hq : Quiet e.n c (deliver c e nx).1 := by
     cases hap : st.applied with
     | none =>
@@ -876,7 +537,7 @@ theorem rel_stale (c0 : Cl) (hb : Base c0) (hs0 : SecretsOK c0.g) (S : List Ev) 
       exact quiet_stale 3 nx c e hcf.hg h1 (by rw [h2]; exact not_prefix_child hst.parent (hst.child a haS))
   have hrec : ∀ e' ∈ S, getRec (deliver c e nx).1 e'.n = getRec c e'.n :=
     fun e' he' => hq.recs e'.n (fun x => hst.num e' he' x.symm)
-  refine ⟨?_, fun hap => pform_quiet (h.par hap) hq, ?_, ?_, ?_⟩
+  refine ⟨⟨?_, fun hap => pform_quiet (h.par hap) hq, ?_, ?_, ?_⟩, hq⟩
   · intro x hx
     rw [hq.consumed] at hx
     rcases h.cons x hx with y | ⟨e', he', hc, hn⟩
@@ -893,7 +554,7 @@ theorem rel_stale (c0 : Cl) (hb : Base c0) (hs0 : SecretsOK c0.g) (S : List Ev) 
 /-- a stale delivery keeps the simulation relation (committer) -/
 theorem rel2_stale (c0 : Cl) (hb : Base c0) (hs0 : SecretsOK c0.g) (o : Ev) (S : List Ev) (hS : Sibs2 c0 o S) (c : Cl)
     (st : FState) (nx : Nat) (h : Rel2 c0 o S c st) (e : Ev) (hst : StaleAt c0 (o :: S) e) :
-    Rel2 c0 o S (deliver c e nx).1 st := by
+    Rel2 c0 o S (deliver c e nx).1 st ∧ Quiet e.n c (deliver c e nx).1 := by
   have hq : Quiet e.n c (deliver c e nx).1 := by
     cases hap : st.applied with
     | none =>
@@ -907,7 +568,7 @@ theorem rel2_stale (c0 : Cl) (hb : Base c0) (hs0 : SecretsOK c0.g) (o : Ev) (S :
   have hrec : ∀ e' ∈ o :: S, getRec (deliver c e nx).1 e'.n = getRec c e'.n :=
     fun e' he' => hq.recs e'.n (fun x => hst.num e' he' x.symm)
   have hST : ∀ e' ∈ S, e' ∈ o :: S := fun e' h' => List.mem_cons_of_mem _ h'
-  refine ⟨?_, fun hap => pform_quiet (h.par hap) hq, ?_, ?_, ?_, ?_⟩
+  refine ⟨⟨?_, fun hap => pform_quiet (h.par hap) hq, ?_, ?_, ?_, ?_⟩, hq⟩
   · intro x hx
     rw [hq.consumed] at hx
     rcases h.cons x hx with y | ⟨e', he', hc, hn⟩
@@ -931,39 +592,520 @@ theorem sibKeys_cons_mem {T : List Ev} {e : Ev} (l : List Ev) (h : e ∈ T) : si
 theorem sibKeys_cons_not {T : List Ev} {e : Ev} (l : List Ev) (h : e ∉ T) : sibKeys T (e :: l) = sibKeys T l := by
   simp [sibKeys, h]
 
+theorem mem_sibKeys {T l : List Ev} {k : Key} : k ∈ sibKeys T l ↔ ∃ e ∈ l, e ∈ T ∧ key e = k := by
+  simp [sibKeys, and_assoc]
+
 theorem rel_run_mixed (c0 : Cl) (hb : Base c0) (hs0 : SecretsOK c0.g) (S : List Ev) (hS : Sibs c0 S) (nx : Nat) (l : List Ev) :
     ∀ (c : Cl) (st : FState), Rel c0 S c st → FInv st → (∀ e ∈ l, e ∈ S ∨ StaleAt c0 S e) →
-      Rel c0 S (run nx c l) (frun st (sibKeys S l)) := by
+      Rel c0 S (run nx c l) (frun st (sibKeys S l)) ∧
+      ∀ n, (∀ e ∈ l, n ≠ e.n) → Frame (epochOf c0.g.path) n c (run nx c l) := by
   induction l with
-  | nil => intro c st h _ _; exact h
+  | nil => intro c st h _ _; exact ⟨h, fun n _ => frame_refl _ n c⟩
   | cons e t ih =>
     intro c st h hi hl
     have hl' : ∀ x ∈ t, x ∈ S ∨ StaleAt c0 S x := fun x hx => hl x (List.mem_cons_of_mem _ hx)
     rw [run_cons]
     by_cases he : e ∈ S
     · rw [sibKeys_cons_mem t he]
-      exact ih _ _ (rel_step c0 hb S hS c st nx h hi e he) (finv_deliver st _ hi) hl'
+      obtain ⟨h1, h2⟩ := ih _ _ (rel_step c0 hb S hS c st nx h hi e he) (finv_deliver st _ hi) hl'
+      refine ⟨h1, fun n hn => Frame.trans ?_ (h2 n (fun x hx => hn x (List.mem_cons_of_mem _ hx)))⟩
+      have := frame_deliver nx c e n (hn e List.mem_cons_self)
+      rw [(hS.sib e he).path] at this
+      exact this
     · rw [sibKeys_cons_not t he]
       rcases hl e List.mem_cons_self with x | x
       · exact absurd x he
-      · exact ih _ _ (rel_stale c0 hb hs0 S hS c st nx h e x) hi hl'
+      · obtain ⟨hr, hq⟩ := rel_stale c0 hb hs0 S hS c st nx h e x
+        obtain ⟨h1, h2⟩ := ih _ _ hr hi hl'
+        exact ⟨h1, fun n hn => (hq.frame _ n (hn e List.mem_cons_self)).trans (h2 n (fun x hx => hn x (List.mem_cons_of_mem _ hx)))⟩
 
 theorem rel2_run_mixed (c0 : Cl) (hb : Base c0) (hs0 : SecretsOK c0.g) (o : Ev) (S : List Ev) (hS : Sibs2 c0 o S) (nx : Nat)
     (l : List Ev) : ∀ (c : Cl) (st : FState), Rel2 c0 o S c st → FInv st → (∀ e ∈ l, e ∈ o :: S ∨ StaleAt c0 (o :: S) e) →
-      Rel2 c0 o S (run nx c l) (frun2 (key o) st (sibKeys (o :: S) l)) := by
+      Rel2 c0 o S (run nx c l) (frun2 (key o) st (sibKeys (o :: S) l)) ∧
+      ∀ n, (∀ e ∈ l, n ≠ e.n) → Frame (epochOf c0.g.path) n c (run nx c l) := by
   induction l with
-  | nil => intro c st h _ _; exact h
+  | nil => intro c st h _ _; exact ⟨h, fun n _ => frame_refl _ n c⟩
   | cons e t ih =>
     intro c st h hi hl
     have hl' : ∀ x ∈ t, x ∈ o :: S ∨ StaleAt c0 (o :: S) x := fun x hx => hl x (List.mem_cons_of_mem _ hx)
     rw [run_cons]
     by_cases he : e ∈ o :: S
     · rw [sibKeys_cons_mem t he]
-      exact ih _ _ (rel2_step c0 hb o S hS c st nx h hi e he) (finv_deliver2 _ st _ hi) hl'
+      obtain ⟨h1, h2⟩ := ih _ _ (rel2_step c0 hb o S hS c st nx h hi e he) (finv_deliver2 _ st _ hi) hl'
+      refine ⟨h1, fun n hn => Frame.trans ?_ (h2 n (fun x hx => hn x (List.mem_cons_of_mem _ hx)))⟩
+      have := frame_deliver nx c e n (hn e List.mem_cons_self)
+      rw [(hS.com e he).path] at this
+      exact this
     · rw [sibKeys_cons_not t he]
       rcases hl e List.mem_cons_self with x | x
       · exact absurd x he
-      · exact ih _ _ (rel2_stale c0 hb hs0 o S hS c st nx h e x) hi hl'
+      · obtain ⟨hr, hq⟩ := rel2_stale c0 hb hs0 o S hS c st nx h e x
+        obtain ⟨h1, h2⟩ := ih _ _ hr hi hl'
+        exact ⟨h1, fun n hn => (hq.frame _ n (hn e List.mem_cons_self)).trans (h2 n (fun x hx => hn x (List.mem_cons_of_mem _ hx)))⟩
+
+/-! ## §D  one fork level, any role -/
+
+/-- a client at the parent state of a fork whose set of competing commits is `T`: a bystander (all of
+    `T` are foreign siblings) or one of the committers (its own staged commit `o` is in `T`, applied on
+    relay echo) -/
+inductive AtFork (c : Cl) (T : List Ev) : Prop where
+  | bystander (hg : c.hasGroup = true) (hr : 1 ≤ c.retention) (hsec : SecretsOK c.g) (hm : NoForkSnapshot c)
+      (hS : Siblings c T)
+  | committer (o : Ev) (S : List Ev) (hg : c.hasGroup = true) (hr : 1 ≤ c.retention) (hsec : SecretsOK c.g)
+      (hm : NoForkSnapshot c) (ho : OwnCommit c o) (hS : Siblings c S)
+      (hd : ∀ e ∈ S, e.n ≠ o.n ∧ (e.ts, e.idnum) ≠ (o.ts, o.idnum)) (hT : ∀ e, e ∈ T ↔ e ∈ o :: S)
+
+/-- `w` is the MIP-03 minimum of `S` -/
+def IsMin (w : Ev) (S : List Ev) : Prop := w ∈ S ∧ ∀ e ∈ S, e = w ∨ klt (key w) (key e) = true
+
+theorem isMin_unique {w w' : Ev} {S : List Ev} (h : IsMin w S) (h' : IsMin w' S) : w = w' := by
+  rcases h.2 w' h'.1 with x | x
+  · exact x.symm
+  · rcases h'.2 w h.1 with y | y
+    · exact y
+    · rw [klt_asymm x] at y; cases y
+
+/-- `l` is a delivery list over `S` (any order, any repetition) that contains every element of `S` -/
+def Covers (S l : List Ev) : Prop := (∀ e ∈ l, e ∈ S) ∧ (∀ e ∈ S, e ∈ l)
+
+/-- everything the simulation knows after a delivery list `l` — commits of the fork `T` and stale
+    events, in any order — ended on `w` -/
+structure LevelDone (c : Cl) (T l : List Ev) (w : Ev) (c' : Cl) : Prop where
+  base : Base c
+  paths : ∀ e ∈ T, e.path = c.g.path
+  com : Com c w
+  form : CForm c w c'
+  wrec : getRec c' w.n = some (rec2 c)
+  blk : ∀ e ∈ l, e ∈ T → e ≠ w → e.sender ≠ c.id → ∃ r, getRec c' e.n = some r ∧ BlockedRec c r
+  cons : ∀ x ∈ c'.g.consumed, x ∈ c.g.consumed ∨ ∃ e ∈ T, e.cipher = x
+  frame : ∀ n, (∀ e ∈ l, n ≠ e.n) → Frame (epochOf c.g.path) n c c'
+
+theorem atFork_paths {c : Cl} {T : List Ev} (h : AtFork c T) : ∀ e ∈ T, e.path = c.g.path := by
+  cases h with
+  | bystander _ _ _ _ hS => exact hS.path
+  | committer o S _ _ _ _ ho hS _ hT =>
+    intro e he
+    rcases List.mem_cons.mp ((hT e).mp he) with rfl | x
+    · exact ho.path
+    · exact hS.path e x
+
+theorem atFork_secrets {c : Cl} {T : List Ev} (h : AtFork c T) : SecretsOK c.g := by
+  cases h with
+  | bystander _ _ hsec _ _ => exact hsec
+  | committer _ _ _ _ hsec _ _ _ _ _ => exact hsec
+
+theorem staleAt_congr {c : Cl} {T T' : List Ev} {e : Ev} (h : ∀ x, x ∈ T ↔ x ∈ T') (hs : StaleAt c T e) : StaleAt c T' e :=
+  ⟨fun a ha => hs.num a ((h a).mpr ha), hs.parent, fun a ha => hs.child a ((h a).mpr ha)⟩
+
+/-- **one level**: the single-fork theorems for either role, for delivery lists that interleave stale
+    events, with the full shape of the final state -/
+theorem fork_level_mixed (c : Cl) (T l : List Ev) (nx : Nat) (hat : AtFork c T)
+    (hl : ∀ e ∈ l, e ∈ T ∨ StaleAt c T e) (hne : ∃ e ∈ l, e ∈ T) :
+    ∃ w ∈ l, w ∈ T ∧ (∀ e ∈ l, e ∈ T → e = w ∨ klt (key w) (key e) = true) ∧ LevelDone c T l w (run nx c l) := by
+  have hpaths := atFork_paths hat
+  have hsec0 := atFork_secrets hat
+  cases hat with
+  | bystander hg hr hsec hm hS =>
+    have hb := base_of c hg hr hsec hm
+    have hSs := sibs_of c T hS
+    obtain ⟨hrel, hframe⟩ := rel_run_mixed c hb hsec0 T hSs nx l c ⟨none, []⟩ (rel_init c hb T hSs) (by simp [FInv]) hl
+    have hkne : sibKeys T l ≠ [] := by
+      obtain ⟨e, he, heT⟩ := hne
+      intro x
+      have : key e ∈ sibKeys T l := mem_sibKeys.mpr ⟨e, he, heT, rfl⟩
+      rw [x] at this; cases this
+    obtain ⟨ka, hka, hap, hmin, hblk⟩ := single_fork (sibKeys T l) hkne
+    obtain ⟨w, hwS, hwk, hcf, hrw⟩ := hrel.chi ka hap
+    obtain ⟨e0, he0, he0T, hk0⟩ := mem_sibKeys.mp hka
+    have hw : w ∈ l := by
+      have : e0 = w := hSs.inj e0 he0T w hwS (Or.inr (hk0.trans hwk.symm))
+      rw [← this]; exact he0
+    refine ⟨w, hw, hwS, ?_, hb, hpaths, (hSs.sib w hwS).com, hcf, hrw, ?_, ?_, hframe⟩
+    · intro e he heT
+      rcases hmin (key e) (mem_sibKeys.mpr ⟨e, he, heT, rfl⟩) with x | x
+      · exact Or.inl (hSs.inj e heT w hwS (Or.inr (x.symm.trans hwk.symm)))
+      · exact Or.inr (by rw [hwk]; exact x)
+    · intro e he heT hne' _
+      have hk : key e ≠ ka := fun x => hne' (hSs.inj e heT w hwS (Or.inr (x.trans hwk.symm)))
+      exact hrel.blk e heT (hblk (key e) (mem_sibKeys.mpr ⟨e, he, heT, rfl⟩) hk)
+    · intro x hx
+      rcases hrel.cons x hx with y | ⟨e', he', hc, _⟩
+      · exact Or.inl y
+      · exact Or.inr ⟨e', he', hc⟩
+  | committer o S hg hr hsec hm ho hS hd hT =>
+    have hb := base_of c hg hr hsec hm
+    have hSs := sibs2_of c o S ho hS hd
+    have hl' : ∀ e ∈ l, e ∈ o :: S ∨ StaleAt c (o :: S) e := by
+      intro e he
+      rcases hl e he with x | x
+      · exact Or.inl ((hT e).mp x)
+      · exact Or.inr (staleAt_congr hT x)
+    obtain ⟨hrel, hframe⟩ := rel2_run_mixed c hb hsec0 o S hSs nx l c ⟨none, []⟩ (rel2_init c hb o S hSs) (by simp [FInv]) hl'
+    have hkne : sibKeys (o :: S) l ≠ [] := by
+      obtain ⟨e, he, heT⟩ := hne
+      intro x
+      have : key e ∈ sibKeys (o :: S) l := mem_sibKeys.mpr ⟨e, he, (hT e).mp heT, rfl⟩
+      rw [x] at this; cases this
+    obtain ⟨ka, hka, hap, hmin, hblk⟩ := single_fork2 (key o) (sibKeys (o :: S) l) hkne
+    obtain ⟨w, hwT, hwk, hcf, hrw⟩ := hrel.chi ka hap
+    obtain ⟨e0, he0, he0T, hk0⟩ := mem_sibKeys.mp hka
+    have hw : w ∈ l := by
+      have : e0 = w := hSs.inj e0 he0T w hwT (Or.inr (hk0.trans hwk.symm))
+      rw [← this]; exact he0
+    refine ⟨w, hw, (hT w).mpr hwT, ?_, hb, hpaths, hSs.com w hwT, hcf, hrw, ?_, ?_, hframe⟩
+    · intro e he heT
+      have heT' := (hT e).mp heT
+      rcases hmin (key e) (mem_sibKeys.mpr ⟨e, he, heT', rfl⟩) with x | x
+      · exact Or.inl (hSs.inj e heT' w hwT (Or.inr (x.symm.trans hwk.symm)))
+      · exact Or.inr (by rw [hwk]; exact x)
+    · intro e he heT hne' hfor
+      have heT' := (hT e).mp heT
+      have hk : key e ≠ ka := fun x => hne' (hSs.inj e heT' w hwT (Or.inr (x.trans hwk.symm)))
+      have hno : e ≠ o := fun x => hfor (x ▸ ho.own)
+      have hko : key e ≠ key o := fun x => hno (hSs.inj e heT' o List.mem_cons_self (Or.inr x))
+      exact hrel.blk e heT' (hblk (key e) (mem_sibKeys.mpr ⟨e, he, heT', rfl⟩) hk hko)
+    · intro x hx
+      rcases hrel.cons x hx with y | ⟨e', he', hc, _⟩
+      · exact Or.inl y
+      · exact Or.inr ⟨e', (hT e').mpr (List.mem_cons_of_mem _ he'), hc⟩
+
+/-- the same for delivery lists over the fork's commits only -/
+theorem fork_level (c : Cl) (T l : List Ev) (nx : Nat) (hat : AtFork c T) (hl : ∀ e ∈ l, e ∈ T) (hne : l ≠ []) :
+    ∃ w ∈ l, (∀ e ∈ l, e = w ∨ klt (key w) (key e) = true) ∧ LevelDone c T l w (run nx c l) := by
+  obtain ⟨x, hx⟩ := List.exists_mem_of_ne_nil l hne
+  obtain ⟨w, hw, _, hmin, hd⟩ := fork_level_mixed c T l nx hat (fun e he => Or.inl (hl e he)) ⟨x, hx, hl x hx⟩
+  exact ⟨w, hw, fun e he => hmin e he (hl e he), hd⟩
+
+/-- no snapshot of the current or a later epoch (`HInv.below`; stronger than `NoForkSnapshot`, and what
+    makes `NoForkSnapshot` hold again one epoch later) -/
+def Below (c : Cl) : Prop := ∀ s ∈ c.mgr, s.epoch < epochOf c.g.path
+
+theorem Below.noFork {c : Cl} (h : Below c) : NoForkSnapshot c := fun s hs => Nat.ne_of_lt (h s hs)
+
+namespace LevelDone
+variable {c c' : Cl} {T l : List Ev} {w : Ev}
+
+theorem path (h : LevelDone c T l w c') : c'.g.path = c.g.path ++ [w.cipher] := by
+  rw [h.form.g]; exact (childG_facts c h.base w h.com).1
+
+theorem g (h : LevelDone c T l w c') : wc c'.g [] = wc (childOfG c.maxPast c.g w) [] := by
+  rw [h.form.g]; rfl
+
+theorem epoch (h : LevelDone c T l w c') : epochOf c'.g.path = epochOf c.g.path + 1 := by
+  rw [h.path, epochOf_snoc]
+
+theorem admins (h : LevelDone c T l w c') : c'.g.admins = c.g.admins := by
+  have h1 : (core (wc c'.g [])).2.2.1 = (core (wc (childOfG c.maxPast c.g w) [])).2.2.1 := by rw [h.g]
+  rw [core_wc, core_wc, core_childOfG, coreStep_admins] at h1
+  exact h1
+
+theorem secrets (h : LevelDone c T l w c') (hs : SecretsOK c.g) : SecretsOK c'.g := by
+  rw [h.form.g]; exact secretsOK_wc _ _ (secretsOK_childOfG _ _ _ hs)
+
+theorem below (h : LevelDone c T l w c') (hb : Below c) : Below c' := by
+  obtain ⟨k, hk⟩ := h.form.mgr
+  intro s hs
+  rw [h.epoch]
+  rw [hk] at hs
+  rcases List.mem_append.mp hs with x | x
+  · exact Nat.lt_succ_of_lt (hb s (List.mem_of_mem_drop x))
+  · simp at x; subst x; exact Nat.lt_succ_self _
+
+end LevelDone
+
+theorem rec2_stable (c : Cl) : StableRec (epochOf c.g.path + 1) (rec2 c) := by
+  intro ep hep
+  have : ¬ epochOf c.g.path + 1 > ep := by omega
+  simp [rbRec, rbRec1, rbRec2, rec2, this]
+
+theorem blocked_stable (c : Cl) (r : Rec) (h : BlockedRec c r) : StableRec (epochOf c.g.path + 1) r := by
+  intro ep hep
+  obtain ⟨_, h2, h3⟩ := h
+  have : ¬ epochOf c.g.path + 1 > ep := by omega
+  have e1 : rbRec1 ep r = r := by simp [rbRec1, h2, h3, this]
+  simp [rbRec, e1, rbRec2, h3]
+
+/-! ## §E  chains of forks -/
+/-- one level of a chain: the MIP-03 winner and the set of competing commits -/
+abbrev Level := Ev × List Ev
+
+/-- all events of a list of levels -/
+def evs (Ls : List Level) : List Ev := Ls.flatMap (·.2)
+
+@[simp] theorem evs_nil : evs [] = [] := rfl
+@[simp] theorem evs_cons (L : Level) (Ls : List Level) : evs (L :: Ls) = L.2 ++ evs Ls := rfl
+
+/-- the conditions on the commits of one level that do not mention the client's state: created in the
+    state with path `p`, by others, each by an admin or a pure self-update, non-zero timestamps,
+    pairwise distinct event numbers / MIP-03 keys / ciphertexts -/
+structure LevelEv (id : Nat) (admins : List Nat) (p : Path) (S : List Ev) : Prop where
+  path : ∀ e ∈ S, e.path = p
+  kind : ∀ e ∈ S, ∃ b sw, e.kind = .commit b sw ∧ (admins.contains e.sender || isPureSelfUpdate b sw) = true
+  foreign : ∀ e ∈ S, e.sender ≠ id
+  ts : ∀ e ∈ S, e.ts ≠ 0
+  distinct : ∀ e1 ∈ S, ∀ e2 ∈ S, e1 ≠ e2 → e1.n ≠ e2.n ∧ (e1.ts, e1.idnum) ≠ (e2.ts, e2.idnum) ∧ e1.cipher ≠ e2.cipher
+
+/-- a chain of forks starting in the state with path `p`: every level's commits were created in the
+    state reached by the MIP-03 winners of the levels before it; event numbers and ciphertexts are
+    distinct across levels (within a level: `LevelEv.distinct`) -/
+def ChainEv (id : Nat) (admins : List Nat) : Path → List Level → Prop
+  | _, [] => True
+  | p, L :: rest => LevelEv id admins p L.2 ∧ IsMin L.1 L.2 ∧
+      (∀ e1 ∈ L.2, ∀ e2 ∈ evs rest, e1.n ≠ e2.n ∧ e1.cipher ≠ e2.cipher) ∧
+      ChainEv id admins (p ++ [L.1.cipher]) rest
+
+/-- a level-by-level schedule: one delivery list per level, each over its level and containing all of it -/
+def LevelWise : List Level → List (List Ev) → Prop
+  | [], [] => True
+  | L :: Ls, l :: ls => Covers L.2 l ∧ LevelWise Ls ls
+  | _, _ => False
+
+/-- `e` was created in a state that is neither a prefix of `p` nor a child of `p` by a commit of `S`
+    (an event of a branch that lost at an earlier level, for instance) -/
+def StalePath (p : Path) (S : List Ev) (e : Ev) : Prop := ¬ e.path <+: p ∧ ∀ a ∈ S, e.path ≠ p ++ [a.cipher]
+
+/-- a level-by-level schedule that interleaves stale events freely: the list of level k holds every
+    commit of the level, and apart from them only events that are stale for that level and whose event
+    numbers differ from those of `all` (the chain's events) -/
+def LevelWiseS (all : List Ev) : Path → List Level → List (List Ev) → Prop
+  | _, [], [] => True
+  | p, L :: Ls, l :: ls =>
+      (∀ e ∈ l, e ∈ L.2 ∨ (StalePath p L.2 e ∧ ∀ a ∈ all, e.n ≠ a.n)) ∧ (∀ e ∈ L.2, e ∈ l) ∧
+      LevelWiseS all (p ++ [L.1.cipher]) Ls ls
+  | _, _, _ => False
+
+theorem levelWiseS_of_levelWise (all : List Ev) : ∀ (Ls : List Level) (ls : List (List Ev)) (p : Path),
+    LevelWise Ls ls → LevelWiseS all p Ls ls := by
+  intro Ls
+  induction Ls with
+  | nil => intro ls p h; cases ls with
+    | nil => trivial
+    | cons l ls => cases h
+  | cons L rest ih =>
+    intro ls p h
+    cases ls with
+    | nil => cases h
+    | cons l ls => exact ⟨fun e he => Or.inl (h.1.1 e he), h.1.2, ih ls _ h.2⟩
+
+/-- every delivered event of such a schedule is a chain event or has a number of its own -/
+theorem levelWiseS_delivered (all : List Ev) : ∀ (Ls : List Level) (ls : List (List Ev)) (p : Path),
+    LevelWiseS all p Ls ls → ∀ e ∈ ls.flatten, e ∈ evs Ls ∨ ∀ a ∈ all, e.n ≠ a.n := by
+  intro Ls
+  induction Ls with
+  | nil => intro ls p h e he; cases ls with
+    | nil => cases he
+    | cons l ls => cases h
+  | cons L rest ih =>
+    intro ls p h e he
+    cases ls with
+    | nil => cases h
+    | cons l ls =>
+      obtain ⟨h1, _, h3⟩ := h
+      rw [List.flatten_cons] at he
+      rcases List.mem_append.mp he with x | x
+      · rcases h1 e x with y | y
+        · exact Or.inl (by simp [y])
+        · exact Or.inr y.2
+      · rcases ih ls _ h3 e x with y | y
+        · exact Or.inl (by simp [y])
+        · exact Or.inr y
+
+theorem siblings_of_levelEv (c : Cl) (S : List Ev) (h : LevelEv c.id c.g.admins c.g.path S)
+    (hu : ∀ e ∈ S, getRec c e.n = none ∧ e.cipher ∉ c.g.consumed) : Siblings c S where
+  path := h.path
+  kind := h.kind
+  foreign := h.foreign
+  ts := h.ts
+  distinct := h.distinct
+  unseen := fun e he => (hu e he).1
+  unconsumed := fun e he => (hu e he).2
+
+/-- the per-client hypotheses of a chain -/
+structure Ready (c : Cl) : Prop where
+  hasGroup : c.hasGroup = true
+  ret : 1 ≤ c.retention
+  sec : SecretsOK c.g
+  below : Below c
+
+/-- what a client has done after a level-by-level schedule over the chain `Ls` that delivered the list `dl` -/
+structure ChainDone (c : Cl) (Ls : List Level) (dl : List Ev) (c' : Cl) : Prop where
+  path : c'.g.path = c.g.path ++ Ls.map (·.1.cipher)
+  g : wc c'.g [] = wc (chainG c.maxPast c.g (Ls.map (·.1))) []
+  win : ∀ L ∈ Ls, (getRec c' L.1.n).map (·.state) = some 2
+  lose : ∀ L ∈ Ls, ∀ e ∈ L.2, e ≠ L.1 → e.sender ≠ c.id → ∃ r, getRec c' e.n = some r ∧ (r.state = 3 ∨ r.state = 4)
+  id : c'.id = c.id
+  persistent : c'.persistent = c.persistent
+  retention : c'.retention = c.retention
+  maxPast : c'.maxPast = c.maxPast
+  ready : Ready c'
+  keep : ∀ n r, getRec c n = some r → StableRec (epochOf c.g.path) r → (∀ e ∈ dl, n ≠ e.n) → getRec c' n = some r
+  unseen : ∀ n, getRec c n = none → (∀ e ∈ dl, n ≠ e.n) → getRec c' n = none
+  cons : ∀ x ∈ c'.g.consumed, x ∈ c.g.consumed ∨ ∃ e ∈ evs Ls, e.cipher = x
+
+theorem chainDone_nil (c : Cl) (h : Ready c) : ChainDone c [] [] c where
+  path := by simp
+  g := rfl
+  win := fun L hL => by cases hL
+  lose := fun L hL => by cases hL
+  id := rfl
+  persistent := rfl
+  retention := rfl
+  maxPast := rfl
+  ready := h
+  keep := fun _ _ h _ _ => h
+  unseen := fun _ h _ => h
+  cons := fun x hx => Or.inl hx
+
+/-- one level (any role, stale events interleaved) followed by a chain the client is a bystander of -/
+theorem chain_step (nx : Nat) (c : Cl) (w : Ev) (T l : List Ev) (rest : List Level) (lr : List Ev) (c2 : Cl)
+    (hat : AtFork c T) (hbelow : Below c) (hmin : IsMin w T)
+    (hl : ∀ e ∈ l, e ∈ T ∨ StaleAt c T e) (hcov : ∀ e ∈ T, e ∈ l)
+    (hN1 : ∀ e1 ∈ l, ∀ e2 ∈ evs rest, e1.n ≠ e2.n) (hN2 : ∀ e1 ∈ T, ∀ e2 ∈ lr, e1.n ≠ e2.n)
+    (hC : ∀ e1 ∈ T, ∀ e2 ∈ evs rest, e1.cipher ≠ e2.cipher)
+    (hchain : ChainEv c.id c.g.admins (c.g.path ++ [w.cipher]) rest)
+    (hu : ∀ e ∈ evs rest, getRec c e.n = none ∧ e.cipher ∉ c.g.consumed)
+    (hc2 : c2 = run nx (run nx c l) lr)
+    (ih : ∀ c1 : Cl, Ready c1 → c1.g.path = c.g.path ++ [w.cipher] → ChainEv c1.id c1.g.admins c1.g.path rest →
+      (∀ e ∈ evs rest, getRec c1 e.n = none ∧ e.cipher ∉ c1.g.consumed) → ChainDone c1 rest lr (run nx c1 lr)) :
+    ChainDone c ((w, T) :: rest) (l ++ lr) c2 := by
+  obtain ⟨w', hw'l, hw'T, hmin', hd⟩ := fork_level_mixed c T l nx hat hl ⟨w, hcov w hmin.1, hmin.1⟩
+  have hw : w = w' := isMin_unique hmin ⟨hw'T, fun e he => hmin' e (hcov e he) he⟩
+  subst hw
+  have hsec : SecretsOK c.g := atFork_secrets hat
+  have hready1 : Ready (run nx c l) :=
+    ⟨hd.form.hg, by rw [hd.form.ret]; exact hd.base.ret, hd.secrets hsec, hd.below hbelow⟩
+  have hu1 : ∀ e ∈ evs rest, getRec (run nx c l) e.n = none ∧ e.cipher ∉ (run nx c l).g.consumed := by
+    intro e he
+    constructor
+    · exact (hd.frame e.n (fun x hx => (hN1 x hx e he).symm)).recs (· = none) (fun o ho => by rw [ho]; rfl) (hu e he).1
+    · intro hx
+      rcases hd.cons _ hx with y | ⟨e', he', y⟩
+      · exact (hu e he).2 y
+      · exact hC e' he' e he y
+  have hch1 : ChainEv (run nx c l).id (run nx c l).g.admins (run nx c l).g.path rest := by
+    rw [hd.form.id, hd.admins, hd.path]; exact hchain
+  have hI := ih (run nx c l) hready1 hd.path hch1 hu1
+  rw [← hc2] at hI
+  have hep1 : epochOf (run nx c l).g.path = epochOf c.g.path + 1 := hd.epoch
+  refine ⟨?_, ?_, ?_, ?_, hI.id.trans hd.form.id, hI.persistent.trans (run_persistent nx l c),
+    hI.retention.trans hd.form.ret, hI.maxPast.trans hd.form.mp, hI.ready, ?_, ?_, ?_⟩
+  · rw [hI.path, hd.path]; simp
+  · rw [hI.g, hd.form.mp]
+    simp only [List.map_cons, chainG_cons]
+    rw [← chainG_wc, ← chainG_wc, hd.g]
+  · intro L hL
+    rcases List.mem_cons.mp hL with rfl | hL'
+    · have := hI.keep w.n (rec2 c) hd.wrec (by rw [hep1]; exact rec2_stable c) (fun e he => hN2 w hmin.1 e he)
+      show (getRec c2 w.n).map (·.state) = some 2
+      rw [this]; rfl
+    · exact hI.win L hL'
+  · intro L hL e he hne' hfor
+    rcases List.mem_cons.mp hL with rfl | hL'
+    · obtain ⟨r, hr, hbr⟩ := hd.blk e (hcov e he) he hne' hfor
+      have := hI.keep e.n r hr (by rw [hep1]; exact blocked_stable c r hbr) (fun e' he' => hN2 e he e' he')
+      exact ⟨r, this, hbr.1⟩
+    · exact hI.lose L hL' e he hne' (by rw [hd.form.id]; exact hfor)
+  · intro n r hr hst hn
+    have hnl : ∀ e ∈ l, n ≠ e.n := fun e he => hn e (List.mem_append_left _ he)
+    have h1 : getRec (run nx c l) n = some r :=
+      (hd.frame n hnl).recs (· = some r) (fun o ho => by rw [ho]; simp [hst _ (Nat.le_refl _)]) hr
+    exact hI.keep n r h1 (hst.mono (by omega)) (fun e he => hn e (List.mem_append_right _ he))
+  · intro n hr hn
+    have hnl : ∀ e ∈ l, n ≠ e.n := fun e he => hn e (List.mem_append_left _ he)
+    have h1 : getRec (run nx c l) n = none :=
+      (hd.frame n hnl).recs (· = none) (fun o ho => by rw [ho]; rfl) hr
+    exact hI.unseen n h1 (fun e he => hn e (List.mem_append_right _ he))
+  · intro x hx
+    rcases hI.cons x hx with y | ⟨e, he, y⟩
+    · rcases hd.cons x y with z | ⟨e, he, z⟩
+      · exact Or.inl z
+      · exact Or.inr ⟨e, by simp [he], z⟩
+    · exact Or.inr ⟨e, by simp [he], y⟩
+
+/-- the number conditions of `chain_step` from a `LevelWiseS` schedule -/
+theorem step_numbers (all : List Ev) (T l : List Ev) (p : Path) (rest : List Level) (ls : List (List Ev)) (p' : Path)
+    (hT : ∀ e ∈ T, e ∈ all) (hrest : ∀ e ∈ evs rest, e ∈ all)
+    (hl : ∀ e ∈ l, e ∈ T ∨ (StalePath p T e ∧ ∀ a ∈ all, e.n ≠ a.n))
+    (hcross : ∀ e1 ∈ T, ∀ e2 ∈ evs rest, e1.n ≠ e2.n ∧ e1.cipher ≠ e2.cipher)
+    (hw : LevelWiseS all p' rest ls) :
+    (∀ e1 ∈ l, ∀ e2 ∈ evs rest, e1.n ≠ e2.n) ∧ (∀ e1 ∈ T, ∀ e2 ∈ ls.flatten, e1.n ≠ e2.n) := by
+  constructor
+  · intro e1 h1 e2 h2
+    rcases hl e1 h1 with x | x
+    · exact (hcross e1 x e2 h2).1
+    · exact x.2 e2 (hrest e2 h2)
+  · intro e1 h1 e2 h2
+    rcases levelWiseS_delivered all rest ls p' hw e2 h2 with x | x
+    · exact (hcross e1 h1 e2 x).1
+    · exact (x e1 (hT e1 h1)).symm
+
+theorem staleAt_of_path {c : Cl} {T : List Ev} {e : Ev} {all : List Ev} (hT : ∀ a ∈ T, a ∈ all)
+    (h : StalePath c.g.path T e ∧ ∀ a ∈ all, e.n ≠ a.n) : StaleAt c T e :=
+  ⟨fun a ha => h.2 a (hT a ha), h.1.1, h.1.2⟩
+
+/-- **chain of forks, bystander, stale events interleaved**: induction over the levels -/
+theorem chain_rest_mixed (nx : Nat) (all : List Ev) (Ls : List Level) : ∀ (c : Cl) (ls : List (List Ev)), Ready c →
+    ChainEv c.id c.g.admins c.g.path Ls → (∀ e ∈ evs Ls, e ∈ all) →
+    (∀ e ∈ evs Ls, getRec c e.n = none ∧ e.cipher ∉ c.g.consumed) →
+    LevelWiseS all c.g.path Ls ls → ChainDone c Ls ls.flatten (run nx c ls.flatten) := by
+  induction Ls with
+  | nil =>
+    intro c ls hr _ _ _ hw
+    cases ls with
+    | nil => exact chainDone_nil c hr
+    | cons l ls => cases hw
+  | cons L rest ih =>
+    intro c ls hr hch hall hu hw
+    cases ls with
+    | nil => cases hw
+    | cons l ls =>
+      obtain ⟨w, T⟩ := L
+      obtain ⟨hlev, hmin, hcross, hch'⟩ := hch
+      obtain ⟨hl, hcov, hw'⟩ := hw
+      have hTall : ∀ e ∈ T, e ∈ all := fun e he => hall e (by simp [he])
+      have hrall : ∀ e ∈ evs rest, e ∈ all := fun e he => hall e (by simp [he])
+      have hS : Siblings c T := siblings_of_levelEv c T hlev (fun e he => hu e (by simp [he]))
+      obtain ⟨hN1, hN2⟩ := step_numbers all T l c.g.path rest ls _ hTall hrall hl hcross hw'
+      rw [List.flatten_cons]
+      refine chain_step nx c w T l rest ls.flatten _ (.bystander hr.hasGroup hr.ret hr.sec hr.below.noFork hS) hr.below
+        hmin (fun e he => (hl e he).imp id (staleAt_of_path hTall)) hcov hN1 hN2 (fun e1 h1 e2 h2 => (hcross e1 h1 e2 h2).2)
+        hch' (fun e he => hu e (by simp [he])) (by simp [run_append]) ?_
+      intro c1 hr1 hp1 hch1 hu1
+      exact ih c1 ls hr1 hch1 hrall hu1 (hp1 ▸ hw')
+
+/-- **chain of forks, bystander** (delivery lists over the levels' commits only) -/
+theorem chain_rest (nx : Nat) (Ls : List Level) (c : Cl) (ls : List (List Ev)) (hr : Ready c)
+    (hch : ChainEv c.id c.g.admins c.g.path Ls) (hu : ∀ e ∈ evs Ls, getRec c e.n = none ∧ e.cipher ∉ c.g.consumed)
+    (hw : LevelWise Ls ls) : ChainDone c Ls ls.flatten (run nx c ls.flatten) :=
+  chain_rest_mixed nx (evs Ls) Ls c ls hr hch (fun _ h => h) hu (levelWiseS_of_levelWise _ Ls ls _ hw)
+
+/-- **chain of forks, first level in any role** (bystander or committer), later levels as a bystander,
+    stale events interleaved -/
+theorem chain_run_mixed (nx : Nat) (all : List Ev) (c : Cl) (w : Ev) (T l : List Ev) (rest : List Level) (ls : List (List Ev))
+    (hat : AtFork c T) (hbelow : Below c) (hmin : IsMin w T)
+    (hl : ∀ e ∈ l, e ∈ T ∨ (StalePath c.g.path T e ∧ ∀ a ∈ all, e.n ≠ a.n)) (hcov : ∀ e ∈ T, e ∈ l)
+    (hall : ∀ e ∈ T ++ evs rest, e ∈ all)
+    (hcross : ∀ e1 ∈ T, ∀ e2 ∈ evs rest, e1.n ≠ e2.n ∧ e1.cipher ≠ e2.cipher)
+    (hchain : ChainEv c.id c.g.admins (c.g.path ++ [w.cipher]) rest)
+    (hu : ∀ e ∈ evs rest, getRec c e.n = none ∧ e.cipher ∉ c.g.consumed)
+    (hw : LevelWiseS all (c.g.path ++ [w.cipher]) rest ls) :
+    ChainDone c ((w, T) :: rest) (l ++ ls.flatten) (run nx c (l ++ ls.flatten)) := by
+  have hTall : ∀ e ∈ T, e ∈ all := fun e he => hall e (List.mem_append_left _ he)
+  have hrall : ∀ e ∈ evs rest, e ∈ all := fun e he => hall e (List.mem_append_right _ he)
+  obtain ⟨hN1, hN2⟩ := step_numbers all T l c.g.path rest ls _ hTall hrall hl hcross hw
+  exact chain_step nx c w T l rest ls.flatten _ hat hbelow hmin (fun e he => (hl e he).imp id (staleAt_of_path hTall)) hcov
+    hN1 hN2 (fun e1 h1 e2 h2 => (hcross e1 h1 e2 h2).2) hchain hu (run_append nx c l _)
+    (fun c1 hr1 hp1 hch1 hu1 => chain_rest_mixed nx all rest c1 ls hr1 hch1 hrall hu1 (hp1 ▸ hw))
+
+theorem chain_run (nx : Nat) (c : Cl) (w : Ev) (T l : List Ev) (rest : List Level) (ls : List (List Ev))
+    (hat : AtFork c T) (hbelow : Below c) (hmin : IsMin w T) (hcov : Covers T l)
+    (hcross : ∀ e1 ∈ T, ∀ e2 ∈ evs rest, e1.n ≠ e2.n ∧ e1.cipher ≠ e2.cipher)
+    (hchain : ChainEv c.id c.g.admins (c.g.path ++ [w.cipher]) rest)
+    (hu : ∀ e ∈ evs rest, getRec c e.n = none ∧ e.cipher ∉ c.g.consumed)
+    (hw : LevelWise rest ls) :
+    ChainDone c ((w, T) :: rest) (l ++ ls.flatten) (run nx c (l ++ ls.flatten)) :=
+  chain_run_mixed nx (T ++ evs rest) c w T l rest ls hat hbelow hmin (fun e he => Or.inl (hcov.1 e he)) hcov.2
+    (fun _ h => h) hcross hchain hu (levelWiseS_of_levelWise _ rest ls _ hw)
 
 /-! ## decidable forms of the event conditions (for closed examples) -/
 
@@ -977,6 +1119,17 @@ instance decLevelWise : ∀ (Ls : List Level) (ls : List (List Ev)), Decidable (
   | L :: Ls, l :: ls => by
     unfold LevelWise
     exact @instDecidableAnd _ _ _ (decLevelWise Ls ls)
+
+instance (p : Path) (S : List Ev) (e : Ev) : Decidable (StalePath p S e) := by unfold StalePath; infer_instance
+
+instance decLevelWiseS (all : List Ev) : ∀ (p : Path) (Ls : List Level) (ls : List (List Ev)), Decidable (LevelWiseS all p Ls ls)
+  | _, [], [] => isTrue trivial
+  | _, [], _ :: _ => isFalse (fun h => h)
+  | _, _ :: _, [] => isFalse (fun h => h)
+  | p, L :: Ls, l :: ls => by
+    unfold LevelWiseS
+    have := decLevelWiseS all (p ++ [L.1.cipher]) Ls ls
+    infer_instance
 
 /-- a commit by an admin, or a pure self-update -/
 def authCommit (admins : List Nat) (e : Ev) : Bool :=
